@@ -37,6 +37,43 @@ func freshExec(s *Script, tmp string) (sig, detail, logHash string) {
 	return
 }
 
+// isolatedWithPrelude: the script does not fail alone; does it fail after the
+// given earlier runs, executed in the same fresh process?  If so the prelude
+// is shortened from the front (halving) while the failure persists.
+func isolatedWithPrelude(s *Script, sig string, tmp string, pre *Prelude) (*Script, *Result) {
+	if len(pre.Indices) == 0 {
+		return nil, nil
+	}
+	c := s.Clone()
+	c.Prelude = pre
+	// state that accumulates (caches, pools, recycled addresses) may need more
+	// history than this worker had when it first showed: repeat the prelude
+	ok := false
+	for _, rep := range []int{1, 4, 16} {
+		c.Prelude.Repeat = rep
+		if g, _, _ := freshExec(c, tmp); g == sig {
+			ok = true
+			break
+		}
+	}
+	if !ok {
+		return nil, nil
+	}
+	for len(c.Prelude.Indices) > 1 {
+		half := c.Clone()
+		half.Prelude.Indices = half.Prelude.Indices[len(half.Prelude.Indices)/2:]
+		if g, _, _ := freshExec(half, tmp); g != sig {
+			break
+		}
+		c = half
+	}
+	g, detail, hash := freshExec(c, tmp)
+	if g != sig {
+		return nil, nil
+	}
+	return c, &Result{Violation: &Violation{Property: s.Property, Signature: sig, Detail: detail + " (after the prelude of earlier runs listed in the replay file)"}, LogHash: hash}
+}
+
 // isolatedMinimize confirms a violation in a fresh process and shrinks the
 // script with one fresh process per candidate.  nil means: not reproducible.
 func isolatedMinimize(s *Script, sig string, tmp string) (*Script, *Result) {
